@@ -270,9 +270,13 @@ impl<'a> Ingestion<'a> {
         // Acquire locks for version registration. We must hold both the
         // compaction state lock and version history lock to safely modify
         // the tree's version.
+        #[cfg(feature = "verif")]
+        crate::verif::probe_mutex(&self.tree.compaction_state, "tree/ingest.rs:compaction_state.lock#21");
         #[expect(clippy::expect_used, reason = "lock is expected to not be poisoned")]
         let mut _compaction_state = self.tree.compaction_state.lock().expect("lock is poisoned");
 
+        #[cfg(feature = "verif")]
+        crate::verif::probe_write(&self.tree.version_history, "tree/ingest.rs:version_history.write#22");
         #[expect(clippy::expect_used, reason = "lock is expected to not be poisoned")]
         let mut version_lock = self.tree.version_history.write().expect("lock is poisoned");
 
